@@ -29,7 +29,8 @@ import (
 // so that k '..' segments land on a different, harness-owned level for every k <= depth.
 
 type entry struct {
-	// Name is a template: {P} = sandbox root, {D} = destination, {B} = base name of the destination.
+	// Name is a template: {P} = sandbox root, {D} = destination, {B} = base name of the destination,
+	// {U} = a token unique to the case (base name of the sandbox root).
 	Name    string `json:"name"`
 	Body    string `json:"body,omitempty"`
 	BodyLen int    `json:"body_len,omitempty"` // if > 0 the body is BodyLen times 'B'
@@ -95,6 +96,10 @@ func catalogue() []hostile {
 		one("dd-dot-mid", "a/./../../esc-15"),
 		one("dd-dblslash", "..//esc-16"),
 		one("dd-dblslash-mid", "a//..//..//esc-17"),
+		// rooted names: Join(dest, "/../x") still climbs out although Clean("/../x") has no '..' left
+		one("dd-rooted", "/../verif-c20-esc-{U}-48"),
+		one("dd-rooted-mid", "/a/../../verif-c20-esc-{U}-49"),
+		one("dd-rooted-dblslash", "//../verif-c20-esc-{U}-50"),
 		one("dd-long-name", "../"+strings.Repeat("L", 255)),
 		one("dd-unicode", "../esc-ü-日本-18"),
 		one("dd-space", "../esc 19 .txt"),
@@ -207,6 +212,7 @@ type sandbox struct {
 func expand(s string, sb *sandbox) string {
 	s = strings.ReplaceAll(s, "{P}", sb.P)
 	s = strings.ReplaceAll(s, "{D}", sb.dest)
+	s = strings.ReplaceAll(s, "{U}", filepath.Base(sb.P))
 	return strings.ReplaceAll(s, "{B}", destBase)
 }
 
@@ -220,10 +226,21 @@ func safe(name string, depth int, sb *sandbox) bool {
 	if !within(sb.P, t) {
 		return false
 	}
-	if strings.HasPrefix(name, "/") && !within(sb.P, filepath.Clean(name)) {
+	if strings.HasPrefix(name, "/") && !within(sb.P, filepath.Clean(name)) && rootedProbe(name) == "" {
 		return false
 	}
 	return true
+}
+
+// rootedProbe recognises the few rooted names of the catalogue whose reading as an absolute path is not
+// inside the sandbox: /verif-c20-esc-<unique token>-<n>. The library joins them below the destination; should
+// an implementation ever honour them as absolute paths, the harness looks for that file and removes it.
+func rootedProbe(name string) string {
+	a := filepath.Clean(name)
+	if strings.HasPrefix(name, "/") && filepath.Dir(a) == "/" && strings.HasPrefix(filepath.Base(a), "verif-c20-esc-p-") {
+		return a
+	}
+	return ""
 }
 
 func (h *harness) newSandbox(c *cfCase) (*sandbox, error) {
@@ -545,6 +562,14 @@ func (h *harness) runConfine(c *cfCase, out *cfOutcome) *vio {
 	if c.Dest == "absent" {
 		untouchable[filepath.Dir(sb.dest)] = true // making the destination itself touches its parent
 	}
+	var probes []string
+	for _, n := range names {
+		if a := rootedProbe(n); a != "" {
+			if _, err := os.Lstat(a); err != nil {
+				probes = append(probes, a)
+			}
+		}
+	}
 	before := snapshot(sb.P, sb.dest)
 
 	var events []sevent
@@ -572,6 +597,15 @@ func (h *harness) runConfine(c *cfCase, out *cfOutcome) *vio {
 			return "<P>" + p[len(sb.P):]
 		}
 		return p
+	}
+	for _, a := range probes {
+		if fi, err := os.Lstat(a); err == nil {
+			if fi.Mode().IsRegular() || fi.IsDir() {
+				os.RemoveAll(a) // the name carries this case's unique token: nobody else made it
+			}
+			out.escaped = true
+			return &vio{"unzip/escape/abs-file", fmt.Sprintf("a rooted entry name was honoured as an absolute path: %s appeared (removed again); %s", a, ret)}
+		}
 	}
 	if len(changes) > 0 {
 		out.escaped = true
